@@ -193,11 +193,16 @@ def make_units(tier):
             K = 16
             for k in range(K):
                 units.append({'cause': cause, 'trigger': trig, 'rounds': 2, 'bound': 2, 'shard': [k, K], 'alts': []})
+    if tier == 'thorough':
+        for cause, trig in (('healthy', 'free'), ('eof', 'on_close')):
+            K = 32
+            for k in range(K):
+                units.append({'cause': cause, 'trigger': trig, 'rounds': 3, 'bound': 1 if cause == 'healthy' else 3, 'shard': [k, K], 'alts': []})
     return units
 
 
 def bounds(tier):
-    return {'causes_x_triggers': [list(c) for c in COMBOS], 'consecutive_reconnects': 2, 'period_s': PERIOD, 'lifetime_s': LIFE}
+    return {'causes_x_triggers': [list(c) for c in COMBOS], 'consecutive_reconnects': 2 if tier == 'quick' else 3, 'period_s': PERIOD, 'lifetime_s': LIFE}
 
 
 def scenario_of(unit):
